@@ -54,6 +54,8 @@ EXPECT = {
     "seed-C11-r": ["C11", "C06"], "seed-C12-r": ["C12"], "seed-C14-r": ["C14"], "seed-C15-r": ["C15", "C08"], "seed-C16-r": ["C16", "C04"], "seed-C17-r": ["C17"], "seed-C18-r": ["C18"],
     "seed-C01-t": ["C03"], "seed-C07-t": ["C07"], "seed-C08-t": ["C08"], "seed-C09a-t": ["C09"], "seed-C09b-t": ["C09"], "seed-C10a-t": ["C10"], "seed-C10b-t": ["C10"],
     "seed-C11-t": ["C11", "C09"], "seed-C14a-t": ["C14"], "seed-C14b-t": ["C14"], "seed-C17a-t": ["C17", "C02"], "seed-C17b-t": ["C17"],
+    "seed-C09a-u": ["C09"], "seed-C09b-u": ["C09"], "seed-C10a-u": ["C10"], "seed-C10b-u": ["C10"], "seed-C14a-u": ["C14"], "seed-C14b-u": ["C14"], "seed-C17a-u": ["C17"],
+    "seed-C17b-u": ["C17"], "seed-C18a-u": ["C18"], "seed-C18b-u": ["C18"], "seed-C19a-u": ["C19"], "seed-C19b-u": ["C19"],
     "seed-C07-o": ["C07"], "seed-C08-o": ["C08"], "seed-C10-o": ["C10"], "seed-C11-o": ["C11"], "seed-C13-o": ["C13"], "seed-C16-o": ["C16"], "seed-C19-o": ["C19"],
 }
 
